@@ -34,8 +34,14 @@ def _one(c, bank, N, dtype, seed, variant="generic"):
         win = filters.GammaWindow() if style == "causal" else filters.HannWindow()
     w = win.get_impulse_response(2 * S)
     floor = c.get("floor")
-    x64 = sig.signal(seed, N) if variant == "generic" else np.zeros(N)
+    x64 = np.zeros(N) if variant == "zeros" else sig.signal(seed, N)
     x = x64.astype(dtype)
+    if variant == "strided":      # one channel of an interleaved buffer, in the signal's own dtype
+        base = np.full(2 * N + 1, 7, dtype=x.dtype)
+        base[1::2] = x
+        x = base[1::2]
+    elif variant == "negstride":
+        x = np.array(x[::-1], copy=True)[::-1]
     comp = cfg.make_computer(c)
     route = c.get("route")
     if route == "deepcopy":
@@ -54,10 +60,12 @@ def _one(c, bank, N, dtype, seed, variant="generic"):
         if getattr(comp, "_dft_size", D) != D:
             raise core.HarnessError("reference DFT size %d != computer's %d for %r" % (
                 D, comp._dft_size, c))
-        r = computers.call(comp.compute_full, sig.ro(x))
+        r = computers.call(comp.compute_full, sig.rov(x) if variant in ("strided", "negstride") else sig.ro(x))
     finally:
         config.LOG_FLOOR_VALUE = old_floor
     tags = dict(bank=type(bank).__name__, style=c["style"], dtype=str(dtype))
+    if variant in ("strided", "negstride"):
+        tags["layout"] = variant
     if floor is not None:
         tags["floor_changed_after_construction"] = True
     if route:
@@ -109,7 +117,7 @@ def _eval(pt, seed):
         c = dict(kind="si", bank=bankname, S=S, style=style, pad=pad, window=window,
                  log=use_log, power=use_power, energy=energy)
         for N in _lengths(S, M, D):
-            for variant in ("generic", "zeros") if N == M else ("generic",):
+            for variant in ("generic", "zeros") if N == M else ("generic", "strided", "negstride") if N in (M + S, D + 1) else ("generic",):
                 evals += 1
                 v, want = _one(c, bank, N, dtype, seed, variant)
                 viol.extend(v)
